@@ -18,6 +18,27 @@ def safe(f, *a):
         return None
 
 
+def record_axes_call(name, args, kwargs, res, exc):
+    """Event for one observed call of interpret_indexing(axis, indexing) (lib/suite_recorder.py); None = not recordable."""
+    if name != "interpret_indexing" or kwargs or len(args) != 2:
+        return None
+    axis, indexing = args
+    if not (isinstance(axis, str) and isinstance(indexing, str) and len(axis) == 1 and 1 <= len(indexing) <= 3):
+        return None
+    n = len(indexing)
+    fam_i = "m" if indexing == "ijk"[:n] else ("c" if indexing == "xyz"[:n] else None)
+    fam_a = "m" if axis in "ijk"[:n] else ("c" if axis in "xyz"[:n] else None)
+    if fam_i is None or fam_a is None:
+        return None        # outside the documented domain: the helper may raise, nothing to judge
+    k = ("ijk" if fam_a == "m" else "xyz").index(axis)
+    if exc is not None:
+        return {"op": "call", "fn": name, "n": n, "fa": fam_a, "fi": fam_i, "k": k, "res": [-1, -1]}
+    try:
+        return {"op": "call", "fn": name, "n": n, "fa": fam_a, "fi": fam_i, "k": k, "res": [int(res[0]), 1 if res[1] else 0]}
+    except Exception:  # noqa
+        return {"op": "call", "fn": name, "n": n, "fa": fam_a, "fi": fam_i, "k": k, "res": [-1, -1]}
+
+
 def helper_tables(darsia, n, table, rng):
     ijk, xyz = "ijk"[:n], "xyz"[:n]
 
@@ -140,14 +161,20 @@ def run(ck, replay=None):
         events.append(layout_event(darsia, s, f"layout:{sid}"))
         if len(s) >= 2:
             events += slice_events(darsia, rng, s, tables[len(s)], f"axes:{sid}")
+    # observed executions: every distinct interpret_indexing call made while the repository's own unit tests run
+    # (images, coordinate systems, arithmetic, patches, grids all go through it) - recorded by lib/suite_recorder.py
+    events += ck.record_suite("axes", ["test_image.py", "test_coordinatesystem.py", "test_patches.py", "test_arithmetics.py", "test_dimension_reduction.py", "test_subregion.py"]
+                              if ck.tier == "quick" else ["."])
     bad = ck.validate("Trace_Axes", "Trace.cfg", events, chunk=300)
     for b in bad:
         e = b["event"]
         sig = f"C20:{b['clause']}:{e['op']}:{e['n']}d"
+        if e["op"] == "call":
+            sig += f":{e['fa']}{e['k']}->{e['fi']}"
         if e["op"] in ("slice", "reduce"):
             sig += ":" + "xyz"[e["c"]]
         ck.violation(sig, f"{e['op']} violates {b['clause']} in {e['n']}-D",
-                     {k: e[k] for k in e if k in ("n", "shape", "c", "q", "tm", "tmi", "tc", "tci", "m2c", "c2m", "steps", "back", "mode")})
+                     {k: e[k] for k in e if k in ("n", "shape", "c", "q", "tm", "tmi", "tc", "tci", "m2c", "c2m", "steps", "back", "mode", "fn", "fa", "fi", "k", "res")})
     ck.cov["evaluations"] = len(events)
     ck.cov["distinct_nontrivial"] = len({(e["op"], e["n"], tuple(e.get("shape", [])), e.get("c"), e.get("q")) for e in events if e["n"] >= 2})
     ck.cov["rule"] = "helper tables for dims 1-3 (all axes, both directions, name and int forms); slice/reduce by every Cartesian name vs every matrix index at every cut of every shape <= 3 per axis; layout helpers on every shape; non-trivial = dimension >= 2"
